@@ -497,3 +497,11 @@ impl VEnv {
         self.0.scopes.global_var_exists(name)
     }
 }
+
+pub fn hue_to_rgb(m1: f64, m2: f64, hue: f64) -> f64 {
+    crate::color::Color::verif_hue_to_rgb(m1, m2, hue)
+}
+
+pub fn modulo(n1: f64, n2: f64) -> f64 {
+    (crate::value::Number(n1) % crate::value::Number(n2)).0
+}
